@@ -133,9 +133,7 @@ class Panel(JupyterMixin):
             else Measurement.get(console, renderable, width - 2).maximum
         )
         if title_text is not None:
-            child_width = min(
-                options.max_width - 2, max(child_width, title_text.cell_len + 2)
-            )
+            child_width = min(width - 2, max(child_width, title_text.cell_len + 2))
 
         width = child_width + 2
         child_options = options.update(width=child_width, highlight=self.highlight)
